@@ -195,7 +195,7 @@ fn forced_controller(ctx: Arc<Ctx>, f: Forced, quiet_us: u64) -> ForcedStats {
                 ok = true;
                 break;
             }
-            if t0.elapsed() > Duration::from_millis(1500) {
+            if t0.elapsed() > Duration::from_millis(400) {
                 break;
             }
         }
@@ -213,12 +213,10 @@ fn forced_controller(ctx: Arc<Ctx>, f: Forced, quiet_us: u64) -> ForcedStats {
             g.released.insert(*s);
             expect.retain(|x| x != s);
         } else {
-            // schedule deviation: not a verdict; let things move on
+            // schedule deviation: not a verdict; the rest of this dispatch runs free (drain below)
             stats.deviations += 1;
-            if let Some(x) = held.first() {
-                g.released.insert(*x);
-                expect.retain(|y| y != x);
-            }
+            stats.releases += 1;
+            break;
         }
         stats.releases += 1;
         ctx.cv.notify_all();
